@@ -473,4 +473,5 @@ def shuf_entries():
     import os
     seed = int(os.environ.get("VERIF_SEED", "0"))
     n = int(os.environ.get("VERIF_SHUF_FUNCS", "150"))
-    return [make_function(seed * 100003 + k, k) for k in range(n)]
+    # the seed is part of every name, so that records of one seed are never compared with another's
+    return [make_function(seed * 100003 + k, f"s{seed}x{k}") for k in range(n)]
